@@ -1118,3 +1118,9 @@ package core
 //@   ensures[C09.inherited_search_leaves_ctx_at_the_location] result1 == nil ==> ctxLoc == loc
 //@ func (*Location).searchRulesAncestors
 //@   ensures[C09.inherited_dispatch_leaves_ctx_at_the_location] result1 == nil ==> ctxLoc == loc
+
+// C07/C10: "expiry is absolute": what AddRule hands to the state carries no relative lifetime (a relative ttl stored as such
+// would restart on every reload); a rule that was given a lifetime is stored with an absolute, integral 'expires'
+//@ func (*Location).AddRule
+//@   assert[C07+C10.stored_rule_has_no_relative_ttl] at "loc.state.Add(ctx, id, wrapper)": !has(wrapper, "ttl") && !has(rule, "ttl")
+//@   assert[C07+C10.stored_rule_lifetime_is_absolute] at "loc.state.Add(ctx, id, wrapper)": expiring ==> has(wrapper, "expires") && is(wrapper["expires"], int64) && wrapper["expires"].(int64) == expires
